@@ -15,7 +15,7 @@ from vf import build, coq, forest as F, mch, mcgen
 from vf.core import sh
 from props import c02
 
-KEY_LEAK = "pg-reject-leak"
+KEY_SCOPE = "pg-rejected-trigger-scope"
 
 
 def gen_cfg(rng, shape=None):
@@ -122,7 +122,7 @@ def inproc(ctx):
                  ["sel:-F" if any(t["filter"] for t in cfg["trig"].values()) else "sel:no-F",
                   "sel:-N" if any(not t["filter"] for t in cfg["trig"].values()) else "sel:no-N"], size=len(evs))
     # stage-2 specification cases: -F / -N / -D / -t plus depth= and time= trigger actions (well-formed values;
-    # on the -pg shape a time= trigger only together with a filter or a depth= trigger: outside that the known leak)
+    # on the -pg shape a time= trigger only together with a filter or a depth= trigger: outside that the finding pg-rejected-trigger-scope)
     sel2cases = []
     for i in range(ctx.n(50, 600)):
         cfg = {"shape": rng.choice(["pg", "cyg"]), "trig": {}, "pattern": rng.choice(["simple", "regex", "glob"])}
@@ -162,7 +162,7 @@ def inproc(ctx):
     defs += "Definition nestchk : list bool := [%s].\n" % "; ".join(
         coq.coq_bool(c["complete"] and not has_switch(c["cfg"])) for c in cases)
     # embedded sub-history (theorems C05_recorded_is_embedded_subhistory / C02_..._any_depth): every switch-free
-    # option set, complete forest of any depth - also inside the known -pg leak class
+    # option set, complete forest of any depth
     embi = [i for i, c in enumerate(cases) if c["complete"] and not has_switch(c["cfg"])]     # any depth, also beyond --max-stack
     defs += "Definition embchk : list bool := [\n%s\n].\n" % ";\n".join(
         "ok_emb %s %s" % (F.coq_forest(cases[i]["forest"]), mcgen.coq_recs(cases[i]["res"]["recs"])) for i in embi)
@@ -200,18 +200,20 @@ def inproc(ctx):
         ("sel2", "bad_indices (fun b : bool => b) sel2chk 0"),
         ("mismatch", "bad_indices agree4 cases 0"),
         ("leaky", "bad_indices (fun c : case4 => let '(a, b, _, _) := c in negb (leaky a b)) cases 0"),
-        ("restore", "bad_indices (fun c : case4 => let '(a, b, o, _) := c in leaky a b || ok_restore b o) cases 0"),
+        ("scope", "bad_indices (fun c : case4 => let '(a, b, _, _) := c in negb (rejected_trigger a b)) cases 0"),
+        ("restore", "bad_indices (fun c : case4 => let '(a, b, o, _) := c in ok_restore b o) cases 0"),
         ("nested", "bad_indices (fun p : case4 * bool => let '((a, b, _, r), chk) := p in "
-                   "negb chk || leaky a b || ok_nested r) (combine cases nestchk) 0"),
+                   "negb chk || ok_nested r) (combine cases nestchk) 0"),
         ("plain", "bad_indices (fun b : bool => b) plainchk 0"),
         ("emb", "bad_indices (fun b : bool => b) embchk 0"),
         ("method", "bad_indices (fun p : cfg * list ev * list seen5 * list seen5 => let '(a, b, r1, r2) := p in "
-                   "leaky a b || list_eqb seen_eqb r1 r2) pairs 0"),
+                   "rejected_trigger a b || list_eqb seen_eqb r1 r2) pairs 0"),
     ], timeout=1500)
     if res is None:
         return
     R = {k: coq.parse_nat_list(v) for k, v in res.items()}
-    ctx.extra["cases_in_known_leak_class"] = len(R["leaky"])
+    ctx.extra["cases_leaving_a_rejected_change_behind"] = len(R["leaky"])      # must be 0 since the repair
+    ctx.extra["cases_in_rejected_trigger_scope_class"] = len(R["scope"])
     ctx.extra["disagreements_checked"] = len(R["mismatch"])
     ctx.extra["plain_spec_checks"] = len(plain)
     ctx.extra["embedded_subhistory_checks"] = len(embi)
@@ -257,20 +259,32 @@ def inproc(ctx):
 
 
 def known_leak(ctx):
-    """KNOWN FINDING witnesses (Restore.v leak_cfg / leak2_cfg) replayed on the implementation"""
+    """regression witnesses of the repaired defect pg-reject-leak (Restore.v leak_cfg / leak2_cfg) and the witness of
+    the narrower finding that remains: a rejected -pg call's time= trigger does not reach its callees"""
     h = mch.Harness(ctx)
     w1 = ({"trig": {1: {"time": 1000}}, "depth": 1}, [("E", 0, 100), ("E", 1, 110), ("X", 1, 120), ("X", 0, 200)])
     w2 = ({"trig": {1: {"depth": 0}}}, [("E", 0, 100), ("E", 1, 110), ("X", 1, 120), ("E", 2, 130), ("X", 2, 140),
                                         ("X", 0, 200)])
-    still = False
     for cfg, evs in (w1, w2):
         r_pg = mcgen.run_case(h, dict(cfg, shape="pg"), evs)
         r_cyg = mcgen.run_case(h, dict(cfg, shape="cyg"), evs)
-        ctx.case(key=("known-leak", repr(cfg)), tags=["known:pg-reject-leak"])
-        if r_pg["recs"] != r_cyg["recs"]:
-            still = True
-    ctx.known_finding(KEY_LEAK, "on the -pg/fentry/PLT path a call rejected after its trigger changed the filter state "
-                      "leaves the change behind", still_fails=still, replay={"witnesses": [w1, w2]})
+        ctx.case(key=("fixed-leak", repr(cfg)), tags=["regression:pg-reject-leak"])
+        if r_pg["recs"] != r_cyg["recs"] or not r_pg["recs"]:
+            ctx.violation("C05: a -pg call rejected after its trigger changed the filter state leaves the change behind "
+                          "(regression of the repaired defect pg-reject-leak)",
+                          {"mode": "leak-witness", "cfg": cfg, "events": evs, "pg_records": r_pg["recs"],
+                           "cyg_records": r_cyg["recs"]}, True)
+    # what remains: main{ b{ c } } with -D 1, b@time=1000, c@depth=1: b is beyond -D; under cygprof its frame carries the
+    # threshold to c (c runs 10 ns: hidden), under -pg nothing of b is kept (c is shown)
+    w3 = ({"trig": {1: {"time": 1000}, 2: {"depth": 1}}, "depth": 1},
+          [("E", 0, 100), ("E", 1, 110), ("E", 2, 120), ("X", 2, 130), ("X", 1, 140), ("X", 0, 200)])
+    r_pg = mcgen.run_case(h, dict(w3[0], shape="pg"), w3[1])
+    r_cyg = mcgen.run_case(h, dict(w3[0], shape="cyg"), w3[1])
+    ctx.case(key=("known-scope", repr(w3[0])), tags=["known:" + KEY_SCOPE])
+    ctx.known_finding(KEY_SCOPE, "on the -pg/fentry path a call rejected by the depth limit keeps no frame, so its time= / "
+                      "size= trigger does not reach its callees, while under -finstrument-functions it does: the recorded "
+                      "trace depends on the instrumentation method", still_fails=(r_pg["recs"] != r_cyg["recs"]),
+                      replay={"witness": w3, "pg_records": r_pg["recs"], "cyg_records": r_cyg["recs"]})
 
 
 # ---------------------------------------------------------------- end-to-end (-F / -N / -D on real programs)
@@ -352,8 +366,6 @@ def e2e(ctx, objdir):
         import re
         model = [tuple(int(x) for x in m) for m in re.findall(r"\(\s*(\d+),\s*(\d+),\s*(\d+)\s*\)", r["model"])]
         if model != got_c:
-            if r["leaky"] == "true":
-                continue        # inside the known defect class: correspondence only (not judged end-to-end)
             ctx.violation("C05 (end-to-end, %s %s): recorded calls differ from the model's selection" % (method, " ".join(opts)),
                           {"mode": "e2e", "method": method, "opts": opts, "program": src, "model": model, "got": got_c},
                           True)
@@ -376,7 +388,7 @@ def meta(ctx):
         "exercised by the tie but not modelled; one trigger spec per function",
         "source-location filters (-L), finish, recover, argument capture and events are outside this model",
         "refinement to the documented semantics is proved for -F/-N/-C/-D/-t and the trigger actions filter/notrace/"
-        "depth=(>0)/time=/size=/trace (specifications sel, sel2; the -pg shape under pg_guard, outside it the known leak); "
+        "depth=(>0)/time=/size=/trace (specifications sel, sel2; the -pg shape under pg_guard, outside it the finding pg-rejected-trigger-scope); "
         "trace_on/trace_off, finish, -L and depth=0 are tied by correspondence + the restoration and embedded-sub-history "
         "theorems only",
         "theorems quantify over complete call forests within --max-stack and clock readings < 2^64 that do not go "
@@ -407,7 +419,7 @@ def replay(ctx, obj):
     defs = "Definition c : case4 := %s.\n" % mcgen.case_term(cfg, evs, res)
     r = coq.run_cases(ctx, "c05_replay", mcgen.PRE, defs, [
         ("agree", "agree4 c"),
-        ("restore", "let '(a, b, o, _) := c in leaky a b || ok_restore b o"),
+        ("restore", "let '(a, b, o, _) := c in ok_restore b o"),
         ("nested", "let '(a, b, _, r) := c in ok_nested r"),
         ("model_states", "let '(a, b, _, _) := c in fst (trace a b (init, []))")])
     ctx.log("replay:", {k: v for k, v in (r or {}).items() if k != "model_states"}, "impl records:", res["recs"][:10])
